@@ -949,6 +949,14 @@ namespace plan
       ++order;
       for (auto &a : m.preds[p].rparams)
         top.nums.push_back({it->local, a});
+      // the temporal parameters of the atom can be constrained by later statements as well (`g0.start >= 2.0;`, `g1.end <= g0.start;`)
+      if (p_interval(m.preds[p]))
+      {
+        top.nums.push_back({it->local, "start"});
+        top.nums.push_back({it->local, "end"});
+      }
+      else if (p_impulse(m.preds[p]))
+        top.nums.push_back({it->local, "at"});
     }
     else if (n == "cut")
     {
